@@ -85,6 +85,7 @@ def run_program(ctx, spec, prog):
     g = [os.path.join(VERIF, "bin/gosym"), "-dir", d, "-pkg", "./" + info["pkg"], "-run", spec["harness"], "-labels", spec["labels"],
          "-out", res_path, "-workers", str(spec.get("workers", 4)), "-timeout", str(timeout_ms), "-unwind", "64",
          "-witnesses", "2" if ctx.tier == "quick" else "6", "-seed", str(ctx.seed)] + spec.get("gosym", [])
+    g += ["-fallback", "z3" if "z3-new" in spec.get("gosym", []) else "z3-new"]
     if info.get("summarize"):
         g += ["-summarize", info["summarize"]]
     if ctx.tier == "thorough" and spec.get("solver2", True):
@@ -296,8 +297,9 @@ def evidence(ctx, spec_all, results, kres):
         "wall_s": round(time.time() - ctx.t0, 2),
         "violations": len(ctx.violations),
     }
-    os.makedirs(os.path.join(VERIF, "evidence"), exist_ok=True)
-    json.dump(ev, open(os.path.join(VERIF, "evidence", ctx.prop + ".json"), "w"), indent=1)
+    evdir = os.environ.get("VERIF_EVIDENCE_DIR", os.path.join(VERIF, "evidence"))
+    os.makedirs(evdir, exist_ok=True)
+    json.dump(ev, open(os.path.join(evdir, ctx.prop + ".json"), "w"), indent=1)
 
 
 def do_replay(prop, path):
